@@ -486,16 +486,17 @@ def _tol_choi(case):
     bigscale = max(1.0, 200 * tol)
     vals = []
     for q, bit in enumerate(case["pattern"]):
-        v = BIG[q] * bigscale if bit else SMALL[q] * tol / 100
+        rep = q // len(BIG)   # spectra longer than the table (thorough tier): repeat with slightly different magnitudes
+        v = BIG[q % len(BIG)] * (1 + 0.01 * rep) * bigscale if bit else SMALL[q % len(SMALL)] * (1 - 0.01 * rep) * tol / 100
         if case["branch"] in ("psd", "svd"):
             v = abs(v)
         vals.append(v)
-    U = catalog.unitary(rows, case["u"]) if rows > 1 else np.eye(1, dtype=complex)
+    U = ch.structured_unitary(rows, case["u"])
     if case["branch"] == "svd":
         wkey = {"I": "F", "F": "g1", "XZ": "g0", "g0": "I", "g1": "F"}[case["u"]]
-        W = catalog.unitary(cols, wkey) if cols > 1 else np.eye(1, dtype=complex)
+        W = ch.structured_unitary(cols, wkey)
         if rows == cols and cols > 1:
-            W = W @ catalog.unitary(cols, "ph")  # make sure J is not Hermitian
+            W = W @ ch.structured_unitary(cols, "ph")  # make sure J is not Hermitian
     else:
         W = U
     J = np.zeros((rows, cols), dtype=complex)
@@ -632,8 +633,8 @@ def partial_cases(tier, seed):
     gen_targets = GEN_TARGETS_Q + ([(4, 2, 2, 4), (2, 4, 3, 2), (3, 3, 3, 3)] if tier == "thorough" else [])
     ks = (0,) if tier == "quick" else (0, 1)
     for n, pos, others in placements:
-        for fam in ("units", "gauss", "gen"):
-            for k in ks:
+        for fam in (("units", "gauss", "gen") if n <= 3 else ("gauss", "gen")):
+            for k in (ks if n <= 2 else (0,)):
                 for (o, i) in cp_targets:
                     for r in (1, 3):
                         for form in ch.forms_for(True, r):
@@ -911,18 +912,36 @@ def ref_check(case):
     return ok(False, obs=n, calls=0)
 
 
+def _alpha(**fixed):
+    def fn(tier, seed):
+        D = dims_alphabet(tier)
+        out = {"local_dims": list(D), "shapes(out_r,in_r,out_c,in_c)": len(D) ** 4, "families": list(ch.FAMILIES),
+               "generic_elements": f"catalog.generic_matrix(r,c,k) with VERIF_SEED={seed}", "X_inputs": "E_ef, iE_ef, gauss, generic"}
+        out.update(fixed)
+        return out
+    return fn
+
+
 CLAUSES = [
     Clause("C04.rank1", rank1_cases, rank1_check, tol="alg", doc="product basis A in {E,iE} x B in {E,iE} x X in {E,iE}: apply (pairs, Choi, flat, nested), "
-           "kraus_to_choi, choi_to_kraus, natural_representation vs reference, every shape (independent left/right)"),
+           "kraus_to_choi, choi_to_kraus, natural_representation vs reference, every shape (independent left/right)",
+           alphabets=_alpha(A="E_ab, iE_ab", B="E_cd, iE_cd", dtype=["complex", "int64"])),
     Clause("C04.linearity", linearity_cases, linearity_check, tol="alg", doc="additivity over the Kraus list on all pairs of rank-1 basis maps (shapes in {1,2}^4); "
            "additivity/homogeneity in X on all pairs of basis inputs, every form"),
     Clause("C04.forms", forms_cases, forms_check, tol="alg", doc="rank 1-4 (8 for HP pairs) catalogue maps in flat/nested/row/pairs/Choi form: apply_channel, kraus_to_choi "
-           "(default and sys=1), natural_representation"),
+           "(default and sys=1), natural_representation", alphabets=_alpha(kinds=["gen", "cp", "hp", "neg"], ranks=[1, 2, 3, 4],
+                                                                           forms=["flat", "nested", "row", "pairs", "choi"])),
     Clause("C04.choi_to_kraus", c2k_cases, c2k_check, tol="alg", doc="PSD / Hermitian indefinite / non-Hermitian / rectangular Choi matrices, every dim form: structure, "
-           "shapes, count, action, re-application through apply_channel"),
-    Clause("C04.tol_cut", tol_cases, tol_check, tol="alg", doc="constructed spectra around the tol cut (margins >=100x both sides), eigh and SVD branches: count and truncated action"),
+           "shapes, count, action, re-application through apply_channel",
+           alphabets=_alpha(sources=["catalogue maps", "raw_gauss", "raw_gen", "raw_herm", "raw_psd", "raw_realsym"],
+                            dim_forms=["none", "int", "vec", "vec_nd", "mat", "mat_nd"])),
+    Clause("C04.tol_cut", tol_cases, tol_check, tol="alg", doc="constructed spectra around the tol cut (margins >=100x both sides), eigh and SVD branches: count and truncated action",
+           alphabets=_alpha(tols=TOLS, branches=["herm", "psd", "svd"], eigenbases=["I", "F", "XZ", "g0", "g1"], patterns="all keep/cut patterns for n<=4, prefixes+2 for larger")),
     Clause("C04.chain", chain_cases, chain_check, tol="alg", doc="Kraus->Choi->Kraus->Choi (3 rounds) returns the same Choi matrix"),
-    Clause("C04.partial", partial_cases, partial_check, tol="alg", weight=0.02, doc="partial_channel = id (x) Phi (x) id at every position, surrounding dims {1,2,3}, all forms, all dim forms"),
+    Clause("C04.partial", partial_cases, partial_check, tol="alg", weight=0.02, doc="partial_channel = id (x) Phi (x) id at every position, surrounding dims {1,2,3}, all forms, all dim forms",
+           alphabets=_alpha(subsystems="1..3 (4 over {1,2} in thorough)", surrounding=[1, 2, 3], column_dims=["same", "reversed", "d%3+1"],
+                            cp_targets=CP_TARGETS_Q, pair_targets=GEN_TARGETS_Q, dim_forms=["2row", "2row_nd", "flat", "flat_nd", "none", "default sys"],
+                            rho="two labelled complex operators + every matrix unit of the whole space when rows*cols<=64 (36 for Choi)")),
     Clause("C04.natural", natural_cases, natural_check, tol="alg", doc="natural_representation K vec_r(X) = vec_r(Phi(X)); documented rejection of mismatched shapes"),
     Clause("C04.channel_dim", cdim_cases, cdim_check, tol="exact", doc="channel_dim on every Kraus form / Choi matrix, dim forms int/vector/2x2, allow_rect, env dim, rejections"),
     Clause("C04.reference", ref_cases, ref_check, tol="alg", probe=1, doc="reference formulations cross-checked against each other (no toqito call)"),
